@@ -647,7 +647,7 @@ def _worker(job):
 
 def parallel(run, fn, tasks, nproc=None):
     """run fn(subrun, task) for every task in worker processes and merge the results into run.
-    Thorough tier: a per-phase time budget (VERIF_PHASE_BUDGET_S, default 1500 s) bounds the exploration - tasks are taken in a
+    Thorough tier: a per-phase time budget (VERIF_PHASE_BUDGET_S, default 900 s) bounds the exploration - tasks are taken in a
     seeded random order and tasks not started when the budget is spent are skipped and COUNTED in the evidence
     (tasks_skipped_budget); the quick tier always runs everything."""
     import multiprocessing as mp
@@ -656,7 +656,7 @@ def parallel(run, fn, tasks, nproc=None):
     deadline = None
     tasks = list(tasks)
     if run.tier == 'thorough':
-        budget = float(os.environ.get('VERIF_PHASE_BUDGET_S', '1500') or 1500)
+        budget = float(os.environ.get('VERIF_PHASE_BUDGET_S', '900') or 900)
         deadline = time.time() + budget
         random.Random(run.seed * 7919 + len(tasks)).shuffle(tasks)
     jobs = [(fn, run.pid, run.tier, run.seed, t, deadline) for t in tasks]
